@@ -79,6 +79,8 @@ def gen_items(rng, pool: List[int], n: int, near_p: float) -> List[Dict[str, Any
             ed = ["element", rng.randrange(8)]
         if rng.random() < 0.12:
             b = "syn%d" % rng.randrange(4)            # small graphs with plain orders / charges (defaults matter)
+            if any(isinstance(x, str) for x in pool):
+                b = rng.choice([x for x in pool if isinstance(x, str)])
         if ed is None and rng.random() < 0.08:
             ed = ["charge_set", rng.randrange(4), rng.choice([-1, -2])]   # charges -1 / -2 at the same atom (not isomorphic)
         sp = rcdata.spec(b, rng.randrange(1 << 30) if rng.random() < 0.7 else None, ed)
@@ -100,6 +102,11 @@ def generate(seed: int, tier: str = "quick") -> Dict[str, Any]:
     rng = rng_for(seed, "c13", "gen")
     n_base = len(rcdata.items())
     pool = [rng.randrange(n_base) for _ in range(rng.randint(1, 6))]
+    if rng.random() < 0.3:
+        # a run on synthetic topologies (bridged bicyclics, look-alikes with equal degree sequences): several copies of each
+        fam = rng.choice(rcdata.SYN_FAMILIES)
+        syn = ["syn%d" % i for i in fam]
+        pool = (syn * 3 + pool[:2]) if rng.random() < 0.5 else (pool + syn * 2)
     near_p = rng.choice([0.0, 0.15, 0.3])
     cfg = {"attr": rng.random() < 0.6, "attr_kind": rng.choice(["str", "str", "deg_desc", "size_pair"])}
     faulty = rng.random() < 0.75
